@@ -4,6 +4,8 @@
   a recording proxy (`RecRng`) around its numpy generator; the tape of draws goes to the Lean model (lean/KDVerif/Model/Geometry.lean)
 * float front end (executable only): where the code rounds a float to an integer (`sqrt/exp/round`, float32 arithmetic) the same
   formula is evaluated here on the recorded uniform draws and the integers are handed to the integer core
+* family `mgrid`: the by-hand vocabulary of Model/C14Spec.lean (the definitions the "recorded parameters reproduce the output" theorems are stated
+  over) is executed by the driver ops geo.padcrop / geo.erasepaste on the real transforms' inputs and recorded parameters and compared with their outputs
 * independent oracles (no model involved): in-bounds, output size, "recorded parameters applied by hand with
   torchvision.transforms.functional reproduce the output exactly", pair alignment via coordinate decoding, round trips
 """
@@ -2446,6 +2448,312 @@ def comp_sweep_cases():
 
 
 # ----------------------------------------------------------------------------------------------
+# family: mgrid -- the by-hand vocabulary of lean/KDVerif/Model/C14Spec.lean run against the real transforms
+#   The theorems `crop_recorded_params_reproduce_output`, `two_crop_recorded_params_reproduce_outputs`, `erase_changes_exactly_the_recorded_boxes`,
+#   `semseg pad` cells ... are stated over `applyPads` / `Grid.padWith` / `Grid.cropBox` / `padCropCell` / `paddedCell` / `erasePaste` /
+#   `Grid.pasteBox` / `eraseSpecCell`.  Here the REAL transform runs on a small integer image with distinct cell values (r*W+c+1), the parameters it
+#   recorded (ctx box(es); for erasing / the segmentation crop, which record nothing, the boxes read from the tape) go with the input grid to the driver
+#   ops `geo.padcrop` / `geo.erasepaste`, and the model's output grids -- the operational one and the closed-form matrix -- are compared cell by cell
+#   with the real output.  The pad calls are the model's own (`padSeq` of the configuration / `semsegPad`).  Only constant padding with an integer fill
+#   and erasing mode `zeros` are in the model's scope: other modes run the real code and are counted as skipped.
+#   Independent oracle (no model): the same by-hand application in plain Python lists.
+# ----------------------------------------------------------------------------------------------
+MG_CROPS = ("KDRandomCrop", "KDTwoRandomCrop", "KDSimpleRandomCrop")
+
+
+def mg_tensor(h, w, dtype="float32", base=1):
+    return (torch.arange(h * w).view(1, h, w) + base).to(getattr(torch, dtype)).contiguous()
+
+
+def mg_list(t):
+    """(1, h, w) / (h, w) tensor -> rows of ints (a non-integral value stays a float and can never equal a model cell)"""
+    a = as_tensor(t)
+    a = a[0] if a.dim() == 3 else a
+    return [[int(v) if float(v).is_integer() else float(v) for v in row] for row in a.tolist()]
+
+
+def mg_pads(case, h, w):
+    """the [l, t, r, b] amounts of the pad calls the configuration asks for (torchvision's reading of the padding argument)"""
+    th, tw = case["size"]
+    p = case.get("padding")
+    out = []
+    if p is not None:
+        p = [p] if isinstance(p, int) else list(p)
+        out.append([p[0]] * 4 if len(p) == 1 else ([p[0], p[1], p[0], p[1]] if len(p) == 2 else p))
+    H = h + sum(q[1] + q[3] for q in out)
+    W = w + sum(q[0] + q[2] for q in out)
+    if case.get("pin") and W < tw:
+        out.append([tw - W, 0, tw - W, 0])
+    if case.get("pin") and H < th:
+        out.append([0, th - H, 0, th - H])
+    return out
+
+
+def py_pad(g, q, fill):
+    l, t, r, b = q
+    width = (len(g[0]) if g else 0) + l + r
+    return [[fill] * width for _ in range(t)] + [[fill] * l + list(row) + [fill] * r for row in g] + [[fill] * width for _ in range(b)]
+
+
+def py_crop(g, box):
+    i, j, h, w = box
+    return [list(row[j:j + w]) for row in g[i:i + h]]
+
+
+def mg_tape_boxes(case, log):
+    """boxes of KDRandomErasing straight from the tape: (uniform, uniform, integers, integers) = an accepted attempt at (top, left)"""
+    props = erase_front(case, log)
+    boxes, k, ui = [], 0, 0
+    while k < len(log):
+        if log[k][0] == "u" and k + 1 < len(log) and log[k + 1][0] == "u":
+            h, w = props[ui]
+            ui += 1
+            if k + 3 < len(log) and log[k + 2][0] == "i" and log[k + 3][0] == "i":
+                boxes.append([log[k + 2][3], log[k + 3][3], h, w])
+                k += 4
+            else:
+                k += 2
+        else:
+            k += 1
+    return boxes
+
+
+def run_mgrid(case):
+    sub = case["sub"]
+    log = []
+    real = {"log": log}
+    if sub == "crop":
+        try:
+            t = build_crop(case)
+            t.set_rng(RecRng(case["seed"], log))
+        except Exception as e:
+            real["out"] = "ctor:" + type(e).__name__
+            return real
+        img = mg_tensor(case["h"], case["w"], case.get("dtype", "float32"))
+        try:
+            base = hand_resize(img, case) if case["cls"] == "KDSimpleRandomCrop" else img
+            real["grid"] = mg_list(base)
+            if case.get("mode", "constant") == "constant":
+                real["hand"] = mg_list(hand_pad(base, case))
+        except Exception as e:
+            real["out"] = f"skipped(hand:{type(e).__name__})"     # a configuration torchvision itself refuses
+            return real
+        ctx = {}
+        try:
+            y = t(img.clone(), ctx=ctx)
+            _same_object_again(t, img, case["seed"])
+        except Exception as e:
+            mode = case.get("mode", "constant")
+            real["out"] = exc_kind(e) if mode == "constant" else f"skipped(mode={mode}, {type(e).__name__})"
+            real["msg"] = str(e)[:200]
+            return real
+        if case["cls"] == "KDTwoRandomCrop":
+            c = ctx.get("two_random_crop") or {}
+            real["boxes"] = [[c.get(k) for k in ("i0", "j0", "h0", "w0")], [c.get(k) for k in ("i1", "j1", "h1", "w1")]]
+            ys = list(y) if isinstance(y, (list, tuple)) else [y]
+        else:
+            c = ctx.get("random_crop") or {}
+            real["boxes"] = [[c.get(k) for k in "ijhw"]]
+            ys = [y]
+        real["ys"] = [mg_list(v) for v in ys]
+        mode = case.get("mode", "constant")
+        real["out"] = "ok" if mode == "constant" else f"skipped(mode={mode})"
+        return real
+    if sub == "erase":
+        import kappadata.transforms as T
+        try:
+            t = T.KDRandomErasing(p=case["p"], min_area=case["min_area"], max_area=case["max_area"], min_aspect=case["min_aspect"],
+                                  max_aspect=case.get("max_aspect"), mode=case["mode"], min_count=case["minc"], max_count=case.get("maxc"))
+            t.set_rng(RecRng(case["seed"], log))
+        except Exception as e:
+            real["out"] = "ctor:" + type(e).__name__
+            return real
+        x = mg_tensor(case["H"], case["W"], "float32")
+        real["grid"] = mg_list(x)
+        try:
+            y = t(x.clone(), ctx={})
+        except Exception as e:
+            real["out"] = exc_kind(e)
+            real["msg"] = str(e)[:200]
+            return real
+        real["boxes"] = mg_tape_boxes(case, log)
+        if case["mode"] != "zeros":
+            real["out"] = f"skipped(mode={case['mode']})"        # the pasted values are normal draws: not an integer grid
+            return real
+        real["ys"] = [mg_list(y)]
+        real["out"] = "ok"
+        return real
+    if sub in ("spad", "scrop"):
+        import kappadata.transforms.semseg as S
+        H, W = case["H"], case["W"]
+        x = mg_tensor(H, W, case.get("dtype", "float32"))
+        seg = mg_tensor(H, W, "int64", base=100)[0]
+        real["grid"], real["sgrid"] = mg_list(x), mg_list(seg)
+        try:
+            t = S.KDSemsegPad(size=tuple(case["size"])) if sub == "spad" else S.KDSemsegRandomCrop(size=tuple(case["size"]))
+            t.set_rng(RecRng(case["seed"], log))
+            xo, so = t((x.clone(), seg.clone()), ctx={})
+        except Exception as e:
+            real["out"] = exc_kind(e)
+            real["msg"] = str(e)[:200]
+            return real
+        real["ys"] = [mg_list(xo), mg_list(so)]
+        if sub == "scrop":
+            ints = [e[3] for e in log if e[0] == "i"]
+            real["boxes"] = [[ints[-2], ints[-1], min(H, case["size"][0]), min(W, case["size"][1])]] if len(ints) >= 2 else [[None] * 4]
+        real["out"] = "ok"
+        return real
+    raise KeyError(sub)
+
+
+def mg_boxes_ok(real):
+    return all(isinstance(v, int) and not isinstance(v, bool) and v >= 0 for b in real.get("boxes", []) for v in b)
+
+
+def req_mgrid(case, real):
+    if real.get("out") != "ok" or not mg_boxes_ok(real):
+        return None
+    sub = case["sub"]
+    if sub == "crop":
+        pad = case.get("padding")
+        return {"op": "geo.padcrop", "grid": real["grid"], "fill": case.get("fill", 0), "th": case["size"][0], "tw": case["size"][1],
+                "padding": [pad] if isinstance(pad, int) else pad, "pin": bool(case.get("pin")), "boxes": real["boxes"]}
+    if sub == "erase":
+        return {"op": "geo.erasepaste", "grid": real["grid"], "boxes": real["boxes"], "values": [0] * len(real["boxes"])}
+    if sub == "spad":
+        return [{"op": "geo.padcrop", "grid": g, "fill": f, "semseg": case["size"], "boxes": []} for g, f in ((real["grid"], 0), (real["sgrid"], -1))]
+    return [{"op": "geo.padcrop", "grid": g, "fill": 0, "pads": [], "boxes": real["boxes"]} for g in (real["grid"], real["sgrid"])]
+
+
+def views_mgrid(case, real, model):
+    """model grids (operational and closed form) against the real output, cell by cell"""
+    sub = case["sub"]
+    ys = real["ys"]
+    if sub == "crop":
+        mv = {"op": [o["op"] for o in model["outs"]], "spec": [o["spec"] for o in model["outs"]], "padded": model["padded"],
+              "paddedSpec": model["paddedSpec"], "pads": model["pads"]}
+        iv = {"op": ys, "spec": ys, "padded": real["hand"], "paddedSpec": real["hand"],
+              "pads": mg_pads(case, len(real["grid"]), len(real["grid"][0]) if real["grid"] else 0)}
+    elif sub == "erase":
+        mv = {"op": [model["op"]], "spec": [model["spec"]]}
+        iv = {"op": ys, "spec": ys}
+    elif sub == "spad":
+        mv = {"op": [m["padded"] for m in model], "spec": [m["paddedSpec"] for m in model]}
+        iv = {"op": ys, "spec": ys}
+    else:
+        mv = {"op": [m["outs"][0]["op"] for m in model], "spec": [m["outs"][0]["spec"] for m in model]}
+        iv = {"op": ys, "spec": ys}
+    return mv, iv
+
+
+def oracle_mgrid(case, real):
+    """independent of the model: the recorded parameters applied to the input by hand (plain lists) give the output"""
+    if real.get("out") != "ok":
+        return None
+    sub, cls = case["sub"], case["cls"]
+    tag = f"{cls} on the integer image {json.dumps(real['grid'])} with {json.dumps({k: v for k, v in case.items() if k not in ('fam', 'sub', 'cls')})}"
+    ys, boxes = real["ys"], real.get("boxes", [])
+    if sub == "spad":
+        H, W = case["H"], case["W"]
+        ph, pw = max(0, case["size"][0] - H), max(0, case["size"][1] - W)
+        q = [pw // 2, ph // 2, pw - pw // 2, ph - ph // 2]
+        for name, g, f, y in (("image", real["grid"], 0, ys[0]), ("mask", real["sgrid"], -1, ys[1])):
+            if py_pad(g, q, f) != y:
+                return Failure(f"mgrid:{cls}:cells", f"padded {name} is not the input centred in the target with fill {f} (pad {q}): got {json.dumps(y)}: {tag}", case,
+                               py_pad(g, q, f), y)
+        return None
+    if any(v is None for b in boxes for v in b):
+        return Failure(f"mgrid:{cls}:ctx-missing", f"the parameters are not recorded: {tag}", case, "i,j,h,w", boxes)
+    if not mg_boxes_ok(real):
+        return Failure(f"mgrid:{cls}:recorded-box", f"recorded box(es) {boxes} are not non-negative integers: {tag}", case, ">= 0", boxes)
+    if sub == "erase":
+        want = [list(r) for r in real["grid"]]
+        for i, j, h, w in boxes:
+            for r in range(i, min(i + h, len(want))):
+                for c in range(j, min(j + w, len(want[r]))):
+                    want[r][c] = 0
+        if want != ys[0]:
+            return Failure(f"mgrid:{cls}:cells", f"output {json.dumps(ys[0])} is not the input with the drawn boxes {boxes} set to 0: {tag}", case, want, ys[0])
+        return None
+    if sub == "scrop":
+        for name, g, y in (("image", real["grid"], ys[0]), ("mask", real["sgrid"], ys[1])):
+            if py_crop(g, boxes[0]) != y:
+                return Failure(f"mgrid:{cls}:cells", f"{name} output {json.dumps(y)} is not the drawn box {boxes[0]} of the input: {tag}", case, py_crop(g, boxes[0]), y)
+        return None
+    g = real["grid"]
+    for q in mg_pads(case, len(g), len(g[0]) if g else 0):
+        g = py_pad(g, q, case.get("fill", 0))
+    if len(ys) != len(boxes):
+        return Failure(f"mgrid:{cls}:output-count", f"{len(ys)} outputs for {len(boxes)} recorded boxes: {tag}", case, len(boxes), len(ys))
+    for k, (b, y) in enumerate(zip(boxes, ys)):
+        if py_crop(g, b) != y:
+            return Failure(f"mgrid:{cls}:cells", f"output {k} {json.dumps(y)} is not the recorded box {b} of the padded input {json.dumps(g)}: {tag}", case,
+                           py_crop(g, b), y)
+    return None
+
+
+def sig_mgrid(case, real):
+    ys = real.get("ys") or [[]]
+    fill = 0 if case["sub"] != "crop" else case.get("fill", 0)
+    shows_fill = any(v == fill for row in ys[0] for v in row)
+    shows_input = any(v != fill for row in ys[0] for v in row)
+    pad = case.get("padding")
+    return ("mgrid", case["cls"], case.get("mode"), real.get("out"), pad is not None and len(np.atleast_1d(pad)), bool(case.get("pin")),
+            len(real.get("boxes", [])), shows_fill, shows_input, case.get("dtype"), min(len(ys[0]), 4), min(len(ys[0][0]) if ys[0] else 0, 4))
+
+
+def gen_mgrid(rng, big=False):
+    r = rng.random()
+    seed = rng.randint(0, 10 ** 6)
+    if r < 0.62:
+        cls = rng.choice(["KDRandomCrop"] * 3 + ["KDTwoRandomCrop"] * 2 + ["KDSimpleRandomCrop"])
+        h, w = rng.randint(1, 9), rng.randint(1, 9)
+        pr = rng.random()
+        if pr < 0.25:
+            padding = None
+        elif pr < 0.5:
+            padding = rng.randint(0, 3)
+        elif pr < 0.75:
+            padding = [rng.randint(0, 3), rng.randint(0, 3)]
+        else:
+            padding = [rng.randint(0, 3) for _ in range(4)]
+        dtype = rng.choice(["float32", "float32", "int64", "uint8"])
+        case = {"fam": "mgrid", "sub": "crop", "cls": cls, "h": h, "w": w, "padding": padding, "pin": rng.random() < 0.4,
+                "mode": rng.choice(["constant"] * 5 + ["edge", "reflect", "symmetric"]), "dtype": dtype,
+                "fill": rng.choice([0, 0, 7, 200] + ([] if dtype == "uint8" else [-3])), "kind": "tensor", "seed": seed}
+        if cls == "KDSimpleRandomCrop":
+            s = rng.randint(2, 6)
+            case.update(rsize=s, interp="nearest", dtype="float32", h=rng.randint(s, 9), w=rng.randint(s, 9))
+            if case["fill"] == -3 and rng.random() < 0.5:
+                case["fill"] = 0
+            bh = bw = s
+        else:
+            bh, bw = h, w
+        q = mg_pads({"size": [0, 0], "padding": padding}, bh, bw)
+        PH, PW = bh + sum(p[1] + p[3] for p in q), bw + sum(p[0] + p[2] for p in q)
+        if cls == "KDSimpleRandomCrop":
+            case["size"] = [s, s]
+        elif case["pin"]:
+            case["size"] = [rng.randint(1, PH + 3), rng.randint(1, PW + 3)]
+        else:
+            case["size"] = [rng.randint(1, PH), rng.randint(1, PW)]
+        if cls == "KDTwoRandomCrop":
+            case.update(omin=rng.choice([None, 0.125, 0.25]), omax=rng.choice([None, 0.75, 1.0]), tries=rng.choice([1, 3, 20]))
+        return case
+    if r < 0.87:
+        H, W = rng.randint(2, 9), rng.randint(2, 9)
+        minc = rng.choice([1, 1, 2, 3])
+        a0, a1 = rng.choice([(0.02, 1 / 3), (0.1, 0.5), (0.3, 1.0), (0.02, 1 / 3)])
+        return {"fam": "mgrid", "sub": "erase", "cls": "KDRandomErasing", "H": H, "W": W, "p": rng.choice([1.0, 1.0, 1.0, 0.5]), "min_area": a0, "max_area": a1,
+                "min_aspect": rng.choice([0.3, 0.3, 0.1, 1.0]), "max_aspect": rng.choice([None, None, 2.0]),
+                "mode": rng.choice(["zeros"] * 5 + ["channelwise", "pixelwise"]), "minc": minc, "maxc": rng.choice([None, None, minc + 2]), "seed": seed}
+    H, W = rng.randint(1, 9), rng.randint(1, 9)
+    sub = rng.choice(["spad", "scrop"])
+    return {"fam": "mgrid", "sub": sub, "cls": "KDSemsegPad" if sub == "spad" else "KDSemsegRandomCrop", "H": H, "W": W,
+            "size": [rng.randint(1, 11), rng.randint(1, 11)], "dtype": rng.choice(["float32", "int64", "uint8"]), "seed": seed}
+
+
+# ----------------------------------------------------------------------------------------------
 # the check
 # ----------------------------------------------------------------------------------------------
 FAMS = {
@@ -2458,8 +2766,9 @@ FAMS = {
     "norm": (gen_norm, run_norm, req_norm, views_norm, oracle_norm, sig_norm),
     "misc": (gen_misc, run_misc, req_misc, views_misc, oracle_misc, sig_misc),
     "comp": (gen_comp, run_comp, req_comp, views_comp, oracle_comp, sig_comp),
+    "mgrid": (gen_mgrid, run_mgrid, req_mgrid, views_mgrid, oracle_mgrid, sig_mgrid),
 }
-QUICK = {"crop": 420, "rrc": 260, "erase": 260, "spec": 260, "semseg": 420, "patch": 260, "norm": 120, "misc": 250, "comp": 320}
+QUICK = {"crop": 420, "rrc": 260, "erase": 260, "spec": 260, "semseg": 420, "patch": 260, "norm": 120, "misc": 250, "comp": 320, "mgrid": 360}
 
 
 def sweep_cases():
@@ -2634,7 +2943,10 @@ class C14(PropertyCheck):
                     "augment, segmentation transforms + SemsegTransformWrapper pipeline (fixed pad/crop/flip against the model; free orders with stochastic image-only transforms in between, members requested together or one after the other, pickled / deep-copied / peer wrappers -- oracle only), patchify/shuffle/unpatchify + random einops patterns, norms, box "
                     "intersection, grid ops, compositions: recording transforms through KDMultiViewWrapper / XTransformWrapper / KDComposeTransform / KDRandomApply / "
                     "KDTransformChoice over plain, subset and transform-wrapped datasets, late judgement of every view's own ctx, pickled / deep-copied and "
-                    "peer instances, uint8 / float32 / float64 / 1-channel / PIL inputs -- oracle only, no model); image sizes 1..40, targets 1..33; distinct = per-family signature (class, input kind, size relations, "
+                    "peer instances, uint8 / float32 / float64 / 1-channel / PIL inputs -- oracle only, no model; mgrid: the by-hand definitions of Model/C14Spec.lean "
+                    "(applyPads / cropBox / padCropCell / paddedCell / erasePaste / eraseSpecCell) run on integer images up to 9x9 with the parameters the real "
+                    "KDRandomCrop / KDTwoRandomCrop / KDSimpleRandomCrop / KDRandomErasing / KDSemsegPad / KDSemsegRandomCrop recorded or drew, output grids compared "
+                    "cell by cell with the real output, constant padding and erasing mode zeros only, other modes counted as skipped); image sizes 1..40, targets 1..33; distinct = per-family signature (class, input kind, size relations, "
                     "configuration class, branch taken, outcome)")
         res.exhaustive = False
         t_fam = {}
@@ -2652,6 +2964,12 @@ class C14(PropertyCheck):
                 if len(res.disagreements) < 50:
                     res.disagreements.append(Disagreement(case, None, None, err))
                 continue
+            if fam == "mgrid":      # the C14Spec vocabulary against the real output: what was compared, what is outside the model's scope
+                if str(real.get("out", "")).startswith("skipped"):
+                    res.bump("mgrid:skipped(padding mode / erasing mode outside the model: real code run, not compared)")
+                elif mv is not None and iv is not None and "op" in iv:
+                    res.bump("mgrid:grids-compared(operational+closed form)", 2 * len(iv["op"]))
+                    res.bump("mgrid:cells-compared", 2 * sum(len(row) for y in iv["op"] for row in y))
             if mv is None:
                 res.bump("not-compared(out-of-domain for the model)")
             elif mv != iv:
